@@ -17,9 +17,15 @@ STRS = ["", "a", "abc", "123", "-7", "0x1f", "1.5", "é", "ÿĀ", "中文",
 BYTESES = [b"", b"a", b"123", b"\x00", b"\xff", b"\n", b"'\"\\", b"a" * 255, b"a" * 256, b"\x80abc"]
 
 
+# ints of several 2048-bit limbs, both signs, with non-zero and with all-zero low limbs (all within CPython's 4300-digit
+# int/str limit, so that printing them is not the issue)
+WIDE_INTS = [10 ** 700 + 7, -(10 ** 700) - 7, 3 ** 4000, -(3 ** 4000), -(2 ** 4000) - 1, -(2 ** 2048), 2 ** 2048 - 1, -(2 ** 2049) + 1,
+             -(1 << 6000) + (1 << 3000) - 1]
+
+
 def scalars():
     out = [None, True, False]
-    out += INTS + FLOATS + STRS + BYTESES
+    out += INTS + FLOATS + STRS + BYTESES + WIDE_INTS + [[w, -w] for w in WIDE_INTS[:3]]
     return out
 
 
